@@ -204,28 +204,32 @@ operations are the methods of the code; each one reads and writes exactly the fi
 reads and writes.  In particular the body of `evaluate` reads **only** `f` and `a`. -/
 
 structure SvcState (F : Type) where
-  W : List F
-  Wc : List F
-  a : List (List F)
-  f : List F
+  W : List F            -- source weights in the `SourceHypoGroupManager`
+  ord : List Nat        -- which source stands at which position in the manager
+  Wc : List F           -- `_src_weight_array_list` cached by the weight service
+  rc : List Nat         -- `_src_recarray_list_list` cached by the weight service (built from the sources)
+  a : List (List F)     -- `_a_jk`
+  f : List F            -- `_f_j`
 
 inductive LowOp (P F : Type) where
-  | setWeights (W' : List F)   -- `source.weight = …` / replacing or re-ordering sources in the manager
-  | changeShgMgr               -- `SrcDetSigYieldWeightsService.change_shg_mgr`: re-creates the cached weights
-  | calcA (p : P)              -- `SrcDetSigYieldWeightsService.calculate(p)`:  `a_jk := Wc · Y(p)`
+  | setSources (W' : List F) (ord' : List Nat)   -- weights set / sources replaced or re-ordered in the manager
+  | changeShgMgr               -- `SrcDetSigYieldWeightsService.change_shg_mgr`: re-creates both caches
+  | calcA (p : P)              -- `SrcDetSigYieldWeightsService.calculate(p)`:  `a_jk := Wc · Y(p; cached recarrays)`
   | calcF                      -- `DatasetSignalWeightFactorsService.calculate()`:  `f_j := a_j / a`
   | evalBody (ns : F)          -- the rest of `MultiDatasetTCLLHRatio.evaluate`: `get_weights()`, loop over datasets
 
-def lowStep {P : Type} (opa : F) (Yof : P → List (List F)) (ds : List (Dataset F))
+/-- `Yof p ord`: the detector signal yields at source parameters `p` for the sources in the order `ord`
+(the yield of a position follows the source standing there, through the source recarray) -/
+def lowStep {P : Type} (opa : F) (Yof : P → List Nat → List (List F)) (ds : List (Dataset F))
     (st : SvcState F) : LowOp P F → SvcState F × Option F
-  | .setWeights W' => ({ st with W := W' }, none)
-  | .changeShgMgr => ({ st with Wc := st.W }, none)
-  | .calcA p => ({ st with a := ajk st.Wc (Yof p) }, none)
+  | .setSources W' ord' => ({ st with W := W', ord := ord' }, none)
+  | .changeShgMgr => ({ st with Wc := st.W, rc := st.ord }, none)
+  | .calcA p => ({ st with a := ajk st.Wc (Yof p st.rc) }, none)
   | .calcF => ({ st with f := fj st.a }, none)
   | .evalBody ns => (st, some (llrMulti opa ns st.f (datasetsOf st.a ds)))
 
 /-- run low-level operations, collecting the values returned by the `evalBody` steps -/
-def lowRun {P : Type} (opa : F) (Yof : P → List (List F)) (ds : List (Dataset F))
+def lowRun {P : Type} (opa : F) (Yof : P → List Nat → List (List F)) (ds : List (Dataset F))
     (st : SvcState F) : List (LowOp P F) → List F
   | [] => []
   | op :: rest =>
@@ -239,25 +243,34 @@ propagated (`Analysis.change_source` / `change_shg_mgr`). -/
 inductive SvcOp (P F : Type) where
   | recalc (p : P)
   | eval (p : P) (ns : F)
-  | changeSources (W' : List F)
+  | changeSources (W' : List F) (ord' : List Nat)
 
 /-- the calls the code makes for each of them -/
 def expand {P : Type} : SvcOp P F → List (LowOp P F)
   | .recalc p => [.calcA p, .calcF]
   | .eval p ns => [.calcA p, .calcF, .evalBody ns]
-  | .changeSources W' => [.setWeights W', .changeShgMgr]
+  | .changeSources W' ord' => [.setSources W' ord', .changeShgMgr]
 
-def svcRun {P : Type} (opa : F) (Yof : P → List (List F)) (ds : List (Dataset F))
+def svcRun {P : Type} (opa : F) (Yof : P → List Nat → List (List F)) (ds : List (Dataset F))
     (st : SvcState F) (ops : List (SvcOp P F)) : List F :=
   lowRun opa Yof ds st (ops.flatMap expand)
 
-/-- the specification: no state but the source weights currently in force -/
-def svcSpec {P : Type} (opa : F) (Yof : P → List (List F)) (ds : List (Dataset F))
-    (W : List F) : List (SvcOp P F) → List F
+/-- the specification: no state but the sources (weights and order) currently in force -/
+def svcSpec {P : Type} (opa : F) (Yof : P → List Nat → List (List F)) (ds : List (Dataset F))
+    (W : List F) (ord : List Nat) : List (SvcOp P F) → List F
   | [] => []
-  | .recalc _ :: rest => svcSpec opa Yof ds W rest
-  | .eval p ns :: rest => stackedLLR opa ns W (Yof p) ds :: svcSpec opa Yof ds W rest
-  | .changeSources W' :: rest => svcSpec opa Yof ds W' rest
+  | .recalc _ :: rest => svcSpec opa Yof ds W ord rest
+  | .eval p ns :: rest => stackedLLR opa ns W (Yof p ord) ds :: svcSpec opa Yof ds W ord rest
+  | .changeSources W' ord' :: rest => svcSpec opa Yof ds W' ord' rest
+
+/-- the state the constructors leave behind: both caches built from the manager, nothing calculated -/
+def initState (W : List F) (ord : List Nat) : SvcState F :=
+  { W := W, ord := ord, Wc := W, rc := ord, a := [], f := [] }
+
+/-- `MultiDatasetTCLLHRatio.__init__`: the number of datasets of the weight-factor service must equal
+the number of log-likelihood-ratio functions (`ValueError` otherwise) -/
+def evalWithChecked (opa ns : F) (a : List (List F)) (ds : List (Dataset F)) : Option F :=
+  if a.length = ds.length then some (evalWith opa ns a ds) else none
 
 end
 
